@@ -9,7 +9,7 @@ use std::collections::BTreeMap;
 use std::time::{Duration, Instant};
 
 use explorer::task::End;
-use explorer::{dfs, json, Chooser, DfsCfg, Report};
+use explorer::{dfs, json, Chooser, Report};
 use p2panda_sync::protocols::Logs;
 use refmodel::MemStore;
 
@@ -45,7 +45,7 @@ fn build(chains: &BTreeMap<(usize, LogIdT), Vec<Op>>, g: &Grid) -> ([MemStore; 2
 pub fn run(mut rep: Report) -> i32 {
     let thorough = rep.thorough();
     let max_n = if thorough { 10 } else { 5 };
-    let max_dev = 2;
+    let max_dev = if thorough { 3 } else { 2 };
     let caps = [0usize, 1, 2, 4, 8];
     let mut chains = BTreeMap::new();
     for a in 0..2 {
@@ -71,10 +71,10 @@ pub fn run(mut rep: Report) -> i32 {
     let mut acc = par_for(&grid, rep.args.threads, wall, |idx, g, acc: &mut Acc| {
         let mut dead = 0u64;
         let st = dfs(
-            &DfsCfg { max_dev, ..Default::default() },
+            &crate::session::dfs_cfg(max_dev, wall),
             |ch: &Chooser| {
                 let (stores, logs) = build(&chains, g);
-                run_pair(ch, stores, logs, Cap::Bounded(g.c), 50_000)
+                run_pair(ch, stores, logs, Cap::Bounded(g.c), 3_000)
             },
             |ch, run| {
                 acc.steps += run.steps;
@@ -94,7 +94,11 @@ pub fn run(mut rep: Report) -> i32 {
                 let replay = || json!({"part": "grid", "capacity": g.c, "ops_a": g.na, "ops_b": g.nb, "authors": g.authors, "vector": ch.vector()});
                 acc.outcome(&(format!("{:?}", run.end), &run.outcome, g.c.min(1)));
                 if let Some(p) = &run.panic {
-                    acc.violation("panic", rank, || format!("p2panda code panicked: {p}; {}", ctx()), replay);
+                    if p.starts_with(crate::session::SPIN) {
+                        acc.violation("livelock/sync-loop-spins", rank, || format!("the sync loop spins without yielding ({p}); {}", ctx()), replay);
+                    } else {
+                        acc.violation("panic", rank, || format!("p2panda code panicked: {p}; {}", ctx()), replay);
+                    }
                     return;
                 }
                 match &run.end {
@@ -142,7 +146,7 @@ pub fn run(mut rep: Report) -> i32 {
                         );
                     }
                     End::Horizon => {
-                        acc.violation("livelock/step-horizon", rank, || format!("50000 steps without termination; {}", ctx()), replay);
+                        acc.violation("livelock/step-horizon", rank, || format!("3000 scheduler steps without termination; {}", ctx()), replay);
                     }
                 }
             },
